@@ -539,6 +539,7 @@ def search(ctx, libdir, variant):
 def run(ctx):
     libdir = ctx.lib()
     T = parse_tables()
+    ctx.regen("translate_c09_getsim.py")
     ctx.prove("C09", extra_targets=["C09/Run.vo"])
     sys.path.insert(0, libdir)
     correspondence(ctx, libdir, T)
